@@ -7,7 +7,7 @@ func init() {
 	addLevel("C02", "merge-context builders take a contiguous run of the oldest-first out-of-order file list (an older file is never left behind a merged newer one); mergeData hands a cursor's record out whole only when none of its rows was consumed.")
 	addLevel("C03", "a merge that was refused its files never clears the in-compaction marks (CompactDone, also deferred, only after mergePrepare succeeded); the merge iterators order files by the min time of the chunk they stand on (sid and minTime refreshed together from the current chunk).")
 	addLevel("C04", "recycled memtables hand out per-measurement slots in the zero state (fresh slice or a reset covering every field, so no stale flushed flag).")
-	addLevel("C05", "no function of the write path returns an error variable that is only declared while inner scopes shadow it (time-outs and unreachable owners are reported, not acknowledged).")
+	addLevel("C05", "no function of the write path returns an error variable that is only declared while inner scopes shadow it (time-outs and unreachable owners are reported, not acknowledged); committed entries are applied synchronously in log order (never from a per-entry goroutine).")
 	addLevel("C06", "a best-effort float parse becomes a field value only after a NaN/Inf test; positions collected on a row are never used unadjusted for repeated in-place deletion.")
 	addLevel("C07", "block writers take the null-bitmap window of a sliced column from ColVal.SubBitmapBytes (bit-offset aware) and never slice ColVal.Bitmap themselves.")
 	addLevel("C10", "a tag-filter result is cached under the key bytes of the lookup that missed (key marshalled once, before the search mutates the filter).")
